@@ -155,6 +155,11 @@ def _build(case, r):
     u = r.random()
     lo_p, hi_p = (1e-6, 1e-3) if u < 0.2 else (1e-5, 30) if u < 0.5 else (0.01, 30)  # (a fifth of the mixtures is dilute throughout: Henry regime)
     pp = [round(gen.log_uniform(r, lo_p, hi_p), 9) for _ in range(n)]
+    if case["seed"] % 7 == 0 and n >= 2 and fl != "point":
+        # a contaminant at the ppb level next to bulk components (its adsorbed mole fraction ends up below 1e-8); not in the last
+        # position, whose mole fraction is obtained by closure
+        pp = [round(gen.log_uniform(r, 0.3, 30), 6) for _ in range(n)]
+        pp[r.randrange(n - 1)] = float("%.3g" % gen.log_uniform(r, 1e-12, 1e-9))
     return comps, isos, pp
 
 
